@@ -9,6 +9,9 @@
 //   aggk <ops>                             Aggregate<double> with the additional op K,i,c,v: x_i = Aggregate(c, v, 0, v, v) (c copies of v)
 //   sgnf v1 v2 ...                         sgn<double>, sgn<float>, sgn<long double> (nan, -0 accepted)
 //   sweep16 <alo> <ahi>                    all pairs (a, b), a in [alo, ahi] as uint16_t and a - 32768 as int16_t, of abs_diff / div_ceil / round_up
+//   pbig <nchunks> <skip> <cut>            popcount(const void*, size_t) on a huge virtual range: one sparse page, nchunks x 2 MiB of 0xFF
+//                                          (one 2 MiB memfd / unlinked temp file mapped back to back with MAP_FIXED), one sparse page;
+//                                          the range starts <skip> bytes behind the beginning and ends <cut> bytes before the end
 //   sweep32 <start> <stride> <count>      harness-internal sweep of the 32-bit entry points against naive bit-loop
 //                                          references (prints "SWEEP ok ..." or "SWEEP FAIL ...")
 // Inputs on which the C++ code would have undefined behaviour (signed overflow, endless loop) are not executed:
@@ -27,6 +30,9 @@
 #include <string>
 #include <type_traits>
 #include <vector>
+
+#include <sys/mman.h>
+#include <unistd.h>
 
 #include <tlx/math/abs_diff.hpp>
 #include <tlx/math/aggregate.hpp>
@@ -307,6 +313,48 @@ static void run_prange(const std::vector<std::string>& tok)
     put(tlx::popcount(static_cast<const void*>(base + start), len));
 }
 
+// ---------------------------------------------------------------- byte-range popcount with more than 2^32 one bits
+// sparse patterns of the first / last page (the check script computes the same)
+static inline unsigned char head_byte(size_t i) { return (i % 3 == 0) ? static_cast<unsigned char>((i * 37 + 11) & 0xFF) : 0; }
+static inline unsigned char tail_byte(size_t i) { return (i % 5 == 0) ? static_cast<unsigned char>((i * 101 + 7) & 0xFF) : 0; }
+static std::string g_scratch_dir = ".";
+
+static void run_pbig(const std::vector<std::string>& tok)
+{
+    const size_t page = 4096, chunk = size_t(2) << 20;
+    size_t nchunks = std::stoull(tok[1]), skip = std::stoull(tok[2]), cut = std::stoull(tok[3]);
+    size_t total = page + nchunks * chunk + page;
+    if (skip + cut > total) { put_s("NA"); return; }
+    int fd = -1;
+#ifdef MFD_CLOEXEC
+    fd = memfd_create("c20_ones", MFD_CLOEXEC);
+#endif
+    if (fd < 0) {
+        std::string name = g_scratch_dir + "/c20_ones_XXXXXX";
+        std::vector<char> nm(name.begin(), name.end()); nm.push_back(0);
+        fd = mkstemp(nm.data());
+        if (fd >= 0) unlink(nm.data());
+    }
+    if (fd < 0) { put_s("SETUP-FAILED:file"); return; }
+    {
+        std::vector<unsigned char> ones(chunk, 0xFF);
+        size_t done = 0;
+        while (done < chunk) { ssize_t w = write(fd, ones.data() + done, chunk - done); if (w <= 0) { close(fd); put_s("SETUP-FAILED:write"); return; } done += size_t(w); }
+    }
+    char* base = static_cast<char*>(mmap(nullptr, total, PROT_NONE, MAP_PRIVATE | MAP_ANONYMOUS | MAP_NORESERVE, -1, 0));
+    if (base == MAP_FAILED) { close(fd); put_s("SETUP-FAILED:reserve"); return; }
+    bool ok = true;
+    void* h = mmap(base, page, PROT_READ | PROT_WRITE, MAP_PRIVATE | MAP_ANONYMOUS | MAP_FIXED, -1, 0);
+    void* t = mmap(base + page + nchunks * chunk, page, PROT_READ | PROT_WRITE, MAP_PRIVATE | MAP_ANONYMOUS | MAP_FIXED, -1, 0);
+    ok = ok && h != MAP_FAILED && t != MAP_FAILED;
+    for (size_t i = 0; ok && i < nchunks; ++i)
+        ok = mmap(base + page + i * chunk, chunk, PROT_READ, MAP_SHARED | MAP_FIXED, fd, 0) != MAP_FAILED;
+    if (!ok) { munmap(base, total); close(fd); put_s("SETUP-FAILED:map"); return; }
+    for (size_t i = 0; i < page; ++i) { static_cast<unsigned char*>(h)[i] = head_byte(i); static_cast<unsigned char*>(t)[i] = tail_byte(i); }
+    put(tlx::popcount(static_cast<const void*>(base + skip), total - skip - cut));
+    munmap(base, total); close(fd);
+}
+
 // ---------------------------------------------------------------- Aggregate<Type>
 static double parse_q(const std::string& s)
 {
@@ -510,6 +558,7 @@ static void sweep16(long alo, long ahi)
 int main(int argc, char** argv)
 {
     if (argc < 2) return 2;
+    { std::string cf = argv[1]; size_t sl = cf.rfind('/'); g_scratch_dir = sl == std::string::npos ? "." : cf.substr(0, sl); }
     std::ifstream in(argv[1]);
     std::string line;
     while (std::getline(in, line)) {
@@ -542,6 +591,7 @@ int main(int argc, char** argv)
             }
         }
         else if (tok[0] == "prange" && tok.size() >= 2) run_prange(tok);
+        else if (tok[0] == "pbig" && tok.size() == 4) run_pbig(tok);
         else if (tok[0] == "sgnf") run_sgnf(tok);
         else if (tok[0] == "sweep16" && tok.size() == 3) sweep16(std::stol(tok[1]), std::stol(tok[2]));
         else if (tok[0] == "agg" || tok[0] == "aggk") run_agg<double>(tok);
